@@ -173,6 +173,9 @@ def run(rep, tier, seed):
         add(b, PacketDescriptor, pd, 'packet-descriptor', ' '.join(t))
         # rule field descriptors of every kind, rules, contexts
         rules = gen_ruleset(rnd, pd, match_prob=0.8)
+        if i % 2:
+            # the order of the rules is part of the context: a default rule may sit anywhere (FIRST stops at it)
+            rules.insert(rnd.randrange(len(rules) + 1), no_compression_rule(randbits(rnd, 11) + '0101', rnd.choice([L, R])))
         for r in rules:
             if r.nature is RuleNature.COMPRESSION and r.field_descriptors:
                 rf = rnd.choice(r.field_descriptors)
